@@ -60,7 +60,10 @@ pub fn outline(p: &PathSpec, xf: &Xf) -> (Vec<Vec<P2>>, f64) {
                     }
                 };
                 let q = Curve::Quad(s, c, (x as f64, y as f64));
-                for pt in q.sample(SEGS).into_iter().skip(1) {
+                // enough segments to keep the polyline within 0.005 device px of the curve
+                let a2 = ((s.0 - 2.0 * c.0 + x as f64).powi(2) + (s.1 - 2.0 * c.1 + y as f64).powi(2)).sqrt() * scale;
+                let n = SEGS.max((a2 / 0.04).sqrt().ceil() as usize);
+                for pt in q.sample(n).into_iter().skip(1) {
                     cur.push(tp(pt.0, pt.1));
                 }
                 cursor = Some((x as f64, y as f64));
@@ -76,7 +79,12 @@ pub fn outline(p: &PathSpec, xf: &Xf) -> (Vec<Vec<P2>>, f64) {
                     }
                 };
                 let q = Curve::Cubic(s, a, (bx as f64, by as f64), (x as f64, y as f64));
-                for pt in q.sample(SEGS).into_iter().skip(1) {
+                let b = (bx as f64, by as f64);
+                let e = (x as f64, y as f64);
+                let d1 = ((s.0 - 2.0 * a.0 + b.0).powi(2) + (s.1 - 2.0 * a.1 + b.1).powi(2)).sqrt();
+                let d2 = ((a.0 - 2.0 * b.0 + e.0).powi(2) + (a.1 - 2.0 * b.1 + e.1).powi(2)).sqrt();
+                let n = SEGS.max((3.0 * d1.max(d2) * scale / 0.04).sqrt().ceil() as usize);
+                for pt in q.sample(n).into_iter().skip(1) {
                     cur.push(tp(pt.0, pt.1));
                 }
                 cursor = Some((x as f64, y as f64));
@@ -345,6 +353,50 @@ impl Check for C08 {
                     let path = PathSpec { evenodd: false, ops: vec![POp::M(a.0 + 0.3, a.1 - 0.2), POp::C(b.0, b.1, c.0, c.1, d.0 + 0.7, d.1 + 0.1)] };
                     account(run, 40_000 + s, l, &Case { w: 36, path, xf: IDENT, clip: false }, s == 3 && c.0 == 42. && d.1 == 18.);
                 }
+            }
+        });
+        // huge curves: control points thousands of pixels away (second differences beyond 4096 px:
+        // the rasteriser's subdivision-count clamp), and very long gently bowed curves, seen
+        // through a 120 px window; the same through conjugated scales
+        let far: Vec<f32> = if q { vec![500., 2040., 2060., 3900.] } else { vec![300., 500., 1000., 1500., 2040., 2060., 2500., 3000., 3500., 3900.] };
+        run.bound("huge curves", format!("quads and cubics whose control points lie {:?} px away (4 orientations, both senses) on 120x120; gently bowed quads (control point 2%, 0.9%, 0.4% of the chord off it) with chords of those lengths; NonZero, fill and clip", far));
+        run.par(far.len() * 8, |s, l| {
+            let f = far[s / 8];
+            let o = s % 8;
+            // orientation: control point to the right / left / below / above; each with the two end points swapped
+            let tr = |x: f32, y: f32| -> (f32, f32) {
+                match o / 2 {
+                    0 => (x, y),
+                    1 => (120.0 - x, y),
+                    2 => (y, x),
+                    _ => (y, 120.0 - x),
+                }
+            };
+            let (p0, p1) = if o % 2 == 0 { ((10.3f32, 9.8f32), (10.7f32, 110.1f32)) } else { ((10.7, 110.1), (10.3, 9.8)) };
+            let (a, e) = (tr(p0.0, p0.1), tr(p1.0, p1.1));
+            for cy in [60.0f32, 35.0, 300.0] {
+                let c = tr(f, cy);
+                for clip in [false, true] {
+                    let path = PathSpec { evenodd: false, ops: vec![POp::M(a.0, a.1), POp::Q(c.0, c.1, e.0, e.1)] };
+                    account(run, 50_000 + s, l, &Case { w: 120, path, xf: IDENT, clip }, false);
+                    let c2 = tr(f * 0.8, 120.0 - cy);
+                    let path = PathSpec { evenodd: false, ops: vec![POp::M(a.0, a.1), POp::C(c.0, c.1, c2.0, c2.1, e.0, e.1)] };
+                    account(run, 50_000 + s, l, &Case { w: 120, path, xf: IDENT, clip }, false);
+                }
+                // the same quad from a path 100 times smaller under scale 100
+                let k = 0.01f32;
+                let path = PathSpec { evenodd: false, ops: vec![POp::M(a.0 * k, a.1 * k), POp::Q(c.0 * k, c.1 * k, e.0 * k, e.1 * k)] };
+                account(run, 50_000 + s, l, &Case { w: 120, path, xf: [100., 0., 0., 100., 0., 0.], clip: false }, false);
+            }
+            // long gently bowed quads: chord f px, control point 1% of the chord off it, closed by
+            // a far vertex so that the sliver between curve and chord decides pixels in the window
+            for off in [0.02f32, 0.009, 0.004] {
+                // control point `off` x chord away from the chord (the curve bulges half of that)
+                let (b0, b1, bc) = (tr(60.0 - f * 0.5, 40.3), tr(60.0 + f * 0.5, 40.3), tr(60.0, 40.3 + off * f));
+                let far_pt = tr(60.0, -3000.0);
+                let path = PathSpec { evenodd: false, ops: vec![POp::M(b0.0, b0.1), POp::Q(bc.0, bc.1, b1.0, b1.1), POp::L(far_pt.0, far_pt.1), POp::Z] };
+                account(run, 50_000 + s, l, &Case { w: 120, path: path.clone(), xf: IDENT, clip: false }, false);
+                account(run, 50_000 + s, l, &Case { w: 120, path, xf: IDENT, clip: true }, false);
             }
         });
     }
